@@ -23,6 +23,7 @@ CHECKS = {
  'C31': (MC, "PARTIAL: only the manifest kernels that do not pass through lxml: APK._format_value (component-name completion, value 0..6 / package 0..4 symbolic characters) and get_effective_target_sdk_version (target/min as None, empty or 1..3 symbolic digits). Everything that walks the lxml tree is outside the claim", '5/C31', 'symbolic execution over symbolic strings'),
  'C27': (MC, "format_value / complexToFloat / get_resource_dimen / get_resource_color / Res_value decoding for all 2^32 data words of every AOSP value type, floats as z3 Float64/Float32", '5/C27', 'symbolic execution with format markers and z3 FP theory'),
  'C04': (MC, "encoded_value header byte over every legal (type,value_arg) pair with fully symbolic payload bytes; nested array/annotation template with symbolic size and leaves; printed field initialiser of DvClass.get_source", '5/C04', 'symbolic execution of EncodedValue/EncodedArray/EncodedAnnotation + DvClass.get_source field block'),
+ 'C02': (MC, "step lemma of the real LinearSweepAlgorithm on buffers of 2..20 (thorough 24) fully symbolic bytes (every first code unit, truncation at every remaining length, payload sizes symbolic) + seeded streams of valid opcodes with symbolic operands and aligned payloads recovered exactly", '5/C02', 'symbolic execution of the sweep loop, one iteration + induction over the offset'),
  'C03': (MC, "all 2^40 five-byte LEB128 prefixes and all 2^32 values for the writers, against a z3 definition of (U/S)LEB128", '5/C03', 'symbolic execution of the five LEB128 functions, z3 BV'),
 }
 NA = {
